@@ -502,3 +502,80 @@ Proof.
     rewrite (box_take_eq hp _ u nt (hl x) b Hb Al). rewrite Hc. unfold ret at 1. simpl. rewrite ?E. rewrite <- ?app_assoc. reflexivity. }
   rewrite Ecomp. destruct (b_cnt b =? 1) eqn:E; simpl; split; intros O; try (exfalso; apply O; apply CU; reflexivity); try (apply CU in O; discriminate); auto.
 Qed.
+
+(** UniqueArc::into_inner: the value comes out undestroyed, the block is released *)
+Theorem into_inner_conserves d s h x :
+  Good s -> running s -> get_h s h = Some x -> hk x = KUniq -> hm x = MOwned ->
+  exists b tk, nth_error (heap (ms s)) (hl x) = Some b /\ b_cells b = [(tk, true)] /\
+  let r := step d s (OIntoInner h) in
+  snd r = obs_of S_OK [tk] (ms s) (ms (fst r)) /\ tbl (fst r) = upd (tbl s) h None /\
+  heap (ms (fst r)) = upd (heap (ms s)) (hl x) (set_dead b) /\
+  log (ms (fst r)) = EDtor tk :: EDealloc (hl x) :: dbg_loads d 1 ++ log (ms s).
+Proof.
+  intros G [Hd Hs] Hx Hk Hm. apply get_h_some in Hx.
+  assert (Hstep : step d s (OIntoInner h) =
+     run_lib (set_h s h None) (v <- UniqueArc_into_inner d (hl x) ;; drop_cells true v ;;; ret v) (fun v s' => (s', S_OK, map fst v))).
+  { unfold step. rewrite Hd, Hs. unfold get_h. rewrite Hx, Hk, Hm. reflexivity. }
+  destruct s as [[hp lg u nt] t fr sk dd]. unfold Good in G. simpl in *.
+  destruct (handle_block _ _ _ _ _ G Hx) as (b & Hb & Al & Ok & Cn & Pos & Le).
+  destruct (cs_single hp u t h x b G Hx Hb) as (tk & Hc); [rewrite Hk; reflexivity..|].
+  assert (E : b_cnt b = 1) by (destruct Ok as (_ & U & _); apply U; rewrite Hk; reflexivity).
+  exists b, tk. split; auto. split; auto.
+  rewrite Hstep. rewrite run_lib_fst, run_lib_snd. simpl ms.
+  assert (Ecomp : (v <- UniqueArc_into_inner d (hl x) ;; drop_cells true v ;;; ret v) (mkM hp lg u nt) =
+     (Ret [(tk, true)], mkM (upd hp (hl x) (set_dead b)) (EDtor tk :: EDealloc (hl x) :: dbg_loads d 1 ++ lg) u nt)).
+  { unfold bind at 1. unfold UniqueArc_into_inner, bind. rewrite (dbg_assert_eq2 hp _ u nt (hl x) b d Hb Al E).
+    rewrite (box_take_eq hp _ u nt (hl x) b Hb Al). rewrite Hc. reflexivity. }
+  rewrite Ecomp. simpl. auto.
+Qed.
+
+(** unwrap_or_clone: a sole owner gets the value itself; otherwise exactly one Clone call, this owner is released
+    (the old value stays with the others, untouched), and the clone is returned; a panicking Clone still
+    releases this owner *)
+Theorem unwrap_or_clone_conserves d s h x pf :
+  Good s -> running s -> get_h s h = Some x -> hk x = KArc -> hm x = MOwned ->
+  exists b tk, nth_error (heap (ms s)) (hl x) = Some b /\ b_cells b = [(tk, true)] /\
+  let r := step d s (OUnwrapOrClone h pf) in
+  tbl (fst r) = upd (tbl s) h None /\
+  (owners (tbl s) (hl x) = 1%nat ->
+     hd 9 (snd r) = S_OK /\ nth 1 (snd r) 9 = tk /\ heap (ms (fst r)) = upd (heap (ms s)) (hl x) (set_dead b) /\
+     log (ms (fst r)) = EDtor tk :: EDealloc (hl x) :: dbg_loads d 1 ++ dbg_loads d 1 ++ EAtomic SCount 1 :: log (ms s)) /\
+  (owners (tbl s) (hl x) <> 1%nat -> pf = false ->
+     hd 9 (snd r) = S_OK /\ nth 1 (snd r) 9 = ntok (ms s) /\
+     heap (ms (fst r)) = upd (heap (ms s)) (hl x) (set_cnt b (b_cnt b - 1)) /\
+     log (ms (fst r)) = EDtor (ntok (ms s)) :: EAtomic SDec (b_cnt b) :: EClone tk (ntok (ms s)) :: EAtomic SCount (b_cnt b) :: log (ms s)) /\
+  (owners (tbl s) (hl x) <> 1%nat -> pf = true ->
+     hd 9 (snd r) = S_PANIC /\ heap (ms (fst r)) = upd (heap (ms s)) (hl x) (set_cnt b (b_cnt b - 1))).
+Proof.
+  intros G [Hd Hs] Hx Hk Hm. apply get_h_some in Hx.
+  destruct s as [[hp lg u nt] t fr sk dd]. unfold Good in G. simpl in *.
+  destruct (handle_block _ _ _ _ _ G Hx) as (b & Hb & Al & Ok & Cn & Pos & Le).
+  destruct (cs_single hp u t h x b G Hx Hb) as (tk & Hc); [rewrite Hk; reflexivity..|].
+  exists b, tk. split; auto. split; auto.
+  pose proof (cnt_unique_iff hp u t h x b G Hx Hb) as CU.
+  assert (H1 : 1 <= b_cnt b) by lia.
+  assert (Hin : true = true -> all_init (b_cells b) = true) by (intros _; rewrite Hc; reflexivity).
+  assert (Ecomp : (tt' <- Arc_unwrap_or_clone d (hl x) pf ;; emit (EDtor tt') ;;; ret tt') (mkM hp lg u nt) =
+     if b_cnt b =? 1
+     then (Ret tk, mkM (upd hp (hl x) (set_dead b)) (EDtor tk :: EDealloc (hl x) :: dbg_loads d 1 ++ dbg_loads d 1 ++ EAtomic SCount 1 :: lg) u nt)
+     else if pf then (Panicked, mkM (upd hp (hl x) (set_cnt b (b_cnt b - 1))) (EAtomic SDec (b_cnt b) :: EAtomic SCount (b_cnt b) :: lg) u nt)
+     else (Ret nt, mkM (upd hp (hl x) (set_cnt b (b_cnt b - 1))) (EDtor nt :: EAtomic SDec (b_cnt b) :: EClone tk nt :: EAtomic SCount (b_cnt b) :: lg) u (nt + 1))).
+  { unfold bind at 1. unfold Arc_unwrap_or_clone. unfold bind at 1. unfold Arc_try_unwrap, bind at 1.
+    rewrite (try_unique_eq2 hp lg u nt (hl x) b d Hb Al).
+    destruct (b_cnt b =? 1) eqn:E.
+    - apply N.eqb_eq in E. unfold UniqueArc_into_inner, bind. rewrite (dbg_assert_eq2 hp _ u nt (hl x) b d Hb Al E).
+      rewrite (box_take_eq hp _ u nt (hl x) b Hb Al). rewrite Hc. unfold ret at 1. unfold ret at 1. unfold emit, ret. simpl.
+      rewrite E. rewrite <- ?app_assoc. reflexivity.
+    - unfold ret at 1. simpl app.
+      unfold call_clone, bind at 1. rewrite (get_blk_eq hp _ u nt (hl x) b Hb Al). rewrite Hc.
+      destruct pf.
+      + unfold panic at 1. unfold bind at 1.
+        rewrite (Arc_drop_eq hp _ u nt (hl x) b true Hb Al H1 Le Hin). rewrite E. reflexivity.
+      + unfold bind at 1, fresh at 1. simpl. unfold bind at 1, emit at 1. simpl. unfold ret at 1. unfold bind at 1.
+        rewrite (Arc_drop_eq hp _ u (nt + 1) (hl x) b true Hb Al H1 Le Hin). rewrite E. reflexivity. }
+  simpl. unfold step. rewrite Hd, Hs. unfold get_h. simpl. rewrite Hx, Hk, Hm. simpl. rewrite Ecomp.
+  destruct (b_cnt b =? 1) eqn:E.
+  - simpl. split; auto. split; [|split]; intros O; try (intros; exfalso; apply O; apply CU; reflexivity).
+    apply N.eqb_eq in E. auto.
+  - destruct pf; simpl; (split; [auto|]); (split; [|split]); intros O; try (apply CU in O; discriminate); intros; try discriminate; auto.
+Qed.
